@@ -172,8 +172,53 @@ def corpus():
     return out
 
 
+class common_ctx_like(object):
+    """minimal stand-in used by the replay of the hash-none stream"""
+    def __init__(self, ctx):
+        self.evaluations = 0; self.traces = 0; self.prop_failures = []
+    def count(self, *a): pass
+    def nontriv(self, *a): pass
+    def fail(self, case, detail): self.prop_failures.append({'case': case, 'detail': detail})
+
+
+def hash_none_stream(ctx):
+    """`--hash none` (accepted by lib/hasher.py, not listed by --help; see the open finding C03-hash-none): property predicate only,
+    straight on the real tools -- a file damaged within capacity is repaired bit-exactly and the run exits 0.  The Pipeline model is
+    not run here: its hash oracle is bytes-valued, and with this option the tool compares the str '' with the stored b''."""
+    import os, shutil
+    import eccrun as E
+    r = __import__('random').Random(99)
+    for tool, params in (('header', ['--max_block_size', '40', '-s', '120', '-r', '0.3']),
+                         ('whole', ['--max_block_size', '40', '-s', '120', '-r1', '0.3', '-r2', '0.2', '-r3', '0.1'])):
+        files = {'a.bin': content(r, 333, 0), 'sub/b.txt': content(r, 90, 0), 'e': b''}
+        case = {'stream': 'hash-none', 'tool': tool, 'params': params, 'tree': {k: v.hex() for k, v in files.items()}}
+        with E.Scratch():
+            E.write_tree('in', files)
+            rc, _ = E.generate(tool, 'in', 'ecc.db', params + ['--hash', 'none'])
+            dmg = {}
+            for p, c in files.items():
+                b = bytearray(c)
+                for i in range(0, min(len(b), 120), 25):       # one wrong byte per 25-byte block of the protected region
+                    b[i] ^= 0x5a
+                dmg[p] = bytes(b)
+            shutil.rmtree('in'); E.write_tree('in', dmg)
+            os.mkdir('out')
+            rc2, log = E.correct(tool, 'in', 'ecc.db', 'out', params + ['--hash', 'none'])
+            outs = E.read_tree('out')
+        ctx.evaluations += 1
+        ctx.count('hash_none_cases')
+        ctx.nontriv(('hash-none', tool))
+        bad = [p for p, c in files.items() if c and outs.get(p) != (c if tool == 'whole' else c[:120] + dmg[p][120:])]
+        if rc != 0 or rc2 != 0 or bad:
+            ctx.fail(case, {'what': '--hash none: damage within capacity not repaired bit-exactly / non-zero exit', 'gen': str(rc), 'exit': str(rc2),
+                            'files_not_restored': bad, 'outputs': sorted(outs), 'stats': E.stats(log)})
+        else:
+            ctx.traces += 1
+
+
 def run(ctx):
     rng = ctx.rng
+    hash_none_stream(ctx)
     cj = corpus()
     for job, res in zip(cj, pipe.run_jobs(cj)):
         handle(ctx, job, res, 'corpus')
@@ -186,6 +231,10 @@ def run(ctx):
 
 
 def replay_case(ctx, case):
+    if case.get('stream') == 'hash-none':
+        sub = common_ctx_like(ctx)
+        hash_none_stream(sub)
+        return {'holds': not sub.prop_failures, 'failures': sub.prop_failures[:2]}
     res = pipe.run_jobs([case])[0]
     if not res.get('ok'):
         return {'holds': bool(res.get('ambiguous')), 'note': 'scenario could not be run', 'detail': {k: res.get(k) for k in ('gen', 'ambiguous', 'harness_error')}}
@@ -204,6 +253,8 @@ def replay_case(ctx, case):
 
 
 def shrink(ctx, case):
+    if case.get('stream') == 'hash-none':
+        return case
     def bad(c):
         r = pipe.run_jobs([c])[0]
         return bool(r.get('ok')) and bool(predicate(c, r)[0])
